@@ -9,12 +9,17 @@
 (*  AllowInconsistent = TRUE admits a leaving info whose shard differs from the key's shard in the previous *)
 (*            epoch: TLC must find the duplicate (named deviation in addValidatorToPreviousMap).             *)
 EXTENDS NodesCoord, Json
-CONSTANTS SampleMod, Keys, MCShards, FixEpochs, Classes, MaxEpoch, AllowInconsistent, Depth, OlderSet
+CONSTANTS MaxChanges, SampleMod, Keys, MCShards, FixEpochs, Classes, MaxEpoch, AllowInconsistent, Depth, OlderSet
 
 Shards2 == <<0, 99>>
 Shards3 == <<0, 1, 99>>
 LogAppend(h, r) == Append(h, r)
 LogLast(h, r) == <<r>>
+\* one-step spec only: the record is built (and the transition exported) for a pseudo-random 1/SampleMod of the
+\* transitions; all transitions are still generated and checked
+LogSample(h, r) == IF RandomElement(1..SampleMod) = 1 THEN Append(h, r) ELSE h
+EmitAppended == (Len(hist') > Len(hist)) => PrintT("@@B " \o ToJson(hist'))
+LogNone(h, r) == h          \* exhaustive checking without export: the observation record is never built
 KeySeq == SortedSeq(Keys)
 MCShardSet == SeqToSet(MCShards)
 Table == <<2, 1>>           \* rating 0 -> chance 2 (= minimum chance), rating 1 -> chance 1 (below the minimum)
@@ -47,9 +52,23 @@ InfoOptions(prev, k) ==
                         \cup {[k |-> k, s |-> t, l |-> "leaving", i |-> 0, r |-> 0] : t \in UNION {other(s) : s \in sw}}
         ELSE {[k |-> k, s |-> s, l |-> l, i |-> 0, r |-> 0] : s \in MCShardSet, l \in {"new", "leaving"}}
              \cup {[k |-> k, s |-> 0, l |-> "absent", i |-> 0, r |-> 0]}
-InfoSets(prev) ==
-    {LET chosen == [i \in 1..Len(KeySeq) |-> f[KeySeq[i]]] IN SelectSeq(chosen, LAMBDA in : in.l # "absent") :
-        f \in {g \in [Keys -> UNION {InfoOptions(prev, k) : k \in Keys}] : \A k \in Keys : g[k] \in InfoOptions(prev, k)}}
+DefaultInfo(prev, k) ==
+    LET se == FindIn(prev.elig, k)  sw == FindIn(prev.wait, k)
+    IN  IF se # {} THEN [k |-> k, s |-> CHOOSE s \in se : TRUE, l |-> "eligible", i |-> 0, r |-> 0]
+        ELSE IF sw # {} THEN [k |-> k, s |-> CHOOSE s \in sw : TRUE, l |-> "waiting", i |-> 0, r |-> 0]
+        ELSE [k |-> k, s |-> 0, l |-> "absent", i |-> 0, r |-> 0]
+\* all choices of one option per key (at most maxch keys deviating from the default), built key by key
+RECURSIVE InfoProd(_, _, _)
+InfoProd(prev, i, maxch) ==
+    IF i = 0 THEN {[seq |-> <<>>, ch |-> 0]}
+    ELSE UNION {{[seq |-> IF o.l = "absent" THEN p.seq ELSE Append(p.seq, o),
+                  ch |-> p.ch + (IF o = DefaultInfo(prev, KeySeq[i]) THEN 0 ELSE 1)] :
+                    o \in {x \in InfoOptions(prev, KeySeq[i]) : x = DefaultInfo(prev, KeySeq[i]) \/ p.ch < maxch}} :
+                p \in InfoProd(prev, i - 1, maxch)}
+InfoSets(prev) == InfoProd(prev, Len(KeySeq), Len(KeySeq))
+\* DeepSpec: at most MaxChanges validators change their status per epoch (the others stay eligible / waiting /
+\* unknown); StepSpec covers every combination for one epoch
+FewChangesInfoSets(prev) == InfoProd(prev, Len(KeySeq), MaxChanges)
 
 (* ---- shuffler results ---- *)
 ResOfPlacement(args, add, f) ==
@@ -62,12 +81,12 @@ ResOfPlacement(args, add, f) ==
          leaving |-> SortedSeq(removed \cup (LeavingAsked(args, add) \ SeqToSet(in)))]
 \* every conserving result: each validator handed in goes to an eligible list (of a shard that has one), to a
 \* waiting list, or -- if it was asked to leave -- is removed
+\* (as placements: quantifying over them instead of over the set of results spares TLC the normalisation of a set of records)
 AllResults(args, add) ==
     LET in == ShufflerIn(args)
         pl == ({"e"} \X EligEntries(args)) \cup ({"w"} \X ShardSet)
-    IN  {ResOfPlacement(args, add, f) :
-            f \in {g \in [1..Len(in) -> pl \cup {<<"x", 0>>}] :
-                      \A i \in 1..Len(in) : g[i] = <<"x", 0>> => in[i] \in LeavingAsked(args, add)}}
+    IN  {g \in [1..Len(in) -> pl \cup {<<"x", 0>>}] :
+            \A i \in 1..Len(in) : g[i] = <<"x", 0>> => in[i] \in LeavingAsked(args, add)}
 ErrRes == [err |-> TRUE, entries |-> {}, elig |-> EmptyLists, wait |-> EmptyLists, leaving |-> <<>>]
 
 \* a few representative conserving results (DeepSpec)
@@ -89,7 +108,7 @@ SomeResults(args, add) ==
                                         ELSE <<"w", META>>]
         promote == [i \in 1..Len(in) |-> IF i <= ne THEN <<"e", shardOfE(i)>> ELSE IF i <= ne + nw THEN ent(shardOfW(i))
                                          ELSE <<"w", Shards[((i - 1) % Len(Shards)) + 1]>>]
-    IN  {ResOfPlacement(args, add, f) : f \in {stay, leave, rotate, promote}}
+    IN  {stay, leave, rotate, promote}
 
 (* ---- specs ---- *)
 ParamSets == [shards : {MCShards}, minShard : {1}, minMeta : {1}, fixEpoch : FixEpochs, class : Classes, table : {Table}]
@@ -103,14 +122,16 @@ StepInit ==
     /\ flagFix = (1 >= params.fixEpoch)
     /\ hist = <<[a |-> "New", in |-> params, out |-> [x |-> 0], st |-> Proj(cfg, cur, pkIdx, KeySeq)]>>
 
-PrepareAny(e, results(_, _)) ==
-    \E infos \in InfoSets(cfg[cur]) :
+PrepareAny(e, results(_, _), infosets(_)) ==
+    \E p \in infosets(cfg[cur]) : LET infos == p.seq IN
         /\ AllowInconsistent \/ Consistent(cfg[cur], infos)
         /\ LET args == NodesConfigFromList(cfg[cur], infos, e >= params.fixEpoch)
                add  == AdditionalLeaving(infos)
-           IN  \E sres \in (IF args.err THEN {ErrRes} ELSE results(args, add) \cup {ErrRes}) : PrepareA(e, infos, sres, args, add, KeySeq)
+           IN  \/ PrepareA(e, infos, ErrRes, args, add, KeySeq)
+               \/ /\ ~args.err
+                  /\ \E f \in results(args, add) : PrepareA(e, infos, ResOfPlacement(args, add, f), args, add, KeySeq)
 
-StepNext == 2 \notin DOMAIN cfg /\ PrepareAny(2, AllResults)
+StepNext == 2 \notin DOMAIN cfg /\ PrepareAny(2, AllResults, InfoSets)
 StepSpec == StepInit /\ [][StepNext]_vars
 
 Genesis == [elig |-> [s \in MCShardSet |-> IF s = META THEN <<2>> ELSE IF s = 0 THEN <<1>> ELSE <<s + 10>>],
@@ -123,7 +144,7 @@ DeepInit ==
     /\ flagFix = (0 >= params.fixEpoch)
     /\ hist = <<[a |-> "New", in |-> params, out |-> [x |-> 0], st |-> Proj(cfg, cur, pkIdx, KeySeq)]>>
 DeepNext ==
-    \/ cur < MaxEpoch /\ PrepareAny(cur + 1, SomeResults)
+    \/ cur < MaxEpoch /\ PrepareAny(cur + 1, SomeResults, FewChangesInfoSets)
     \/ cur < MaxEpoch /\ (cur + 1) \in DOMAIN cfg /\ EpochAction(cur + 1, KeySeq)
 DeepSpec == DeepInit /\ [][DeepNext]_vars
 
